@@ -129,6 +129,12 @@ mainloop:
 			retry = w.scheduleRetry(w.retrych, curVersion)
 
 		case vsn := <-w.retrych:
+			if vsn != curVersion {
+				// scheduled before a reset moved the watch on (the timer had
+				// already fired when it was stopped): stale
+				w.log.Debugf("ignoring stale reconnect at version %v (now at %v)", vsn, curVersion)
+				continue
+			}
 			w.log.Debugf("reconnecting at version %v", vsn)
 
 			retry = nil
